@@ -340,10 +340,15 @@ PROPS["C12"] = dict(
     title="Connections are admitted only for authenticated, expected, unique peers",
     level="exploration",
     technique="runtime monitoring: admission oracle over adversarial handshake transcripts on real localhost sessions; reference pool diff + invariant probes under concurrency",
-    explanation="(pool) PoolWatch (through the verif facade): random insert/remove sequences are diffed against a set + quota reference after every operation, the non-configured quota is "
+    explanation="(handshake) Real localhost sessions (TCP + noise + preface through the verif facade): the victim runs the real gossip / consensus handshake::inbound or ::outbound "
+    "while the peer, written in the harness and owning every key but judged by ground truth, speaks one transcript: honest; a frame recorded on an earlier session replayed; a man in the "
+    "middle that terminates noise towards the honest dialler and forwards its frame verbatim; a signature by another key over the right session id; the right key over a flipped / "
+    "truncated / extended session id; wrong genesis; truncated and empty frames; outbound: a genuine handshake of another identity than the dialled one. Any admission other than the "
+    "honest one is a violation, and the honest one must be admitted as the right identity. Membership of the validator network is enforced by the pool (limit 0), covered below. "
+    "(pool) PoolWatch (through the verif facade): random insert/remove sequences are diffed against a set + quota reference after every operation, the non-configured quota is "
     "never exceeded and not leaked (after all removes exactly `limit` fresh identities fit); 16 concurrent tasks on few keys with the invariants probed after every operation.",
     assumptions=["held on the generated transcripts / sequences only"],
-    stages=[dict(name="pool", flavour="release", args={"mode": "pool"}, **NET)],
-    floors={"quick": {"pool_inserts_accepted": 20000, "pool_inserts_refused": 20000, "quota_leak_probes": 3000, "pool_concurrent_rounds": 30},
+    stages=[dict(name="pool", flavour="release", args={"mode": "pool"}, **NET), dict(name="handshake", flavour="release", args={"mode": "handshake"}, **NET)],
+    floors={"quick": {"honest_admissions": 1000, "adversarial_transcripts_refused": 8000, "inbound_Gossip_relayed-by-mitm": 300, "inbound_Consensus_replayed-from-other-session": 300, "outbound_Gossip_other-identity": 300, "pool_inserts_accepted": 20000, "pool_inserts_refused": 20000, "quota_leak_probes": 3000, "pool_concurrent_rounds": 30},
             "thorough": {"pool_inserts_accepted": 500000}},
 )
